@@ -189,6 +189,22 @@ class ValProp(Prop):
             out.append(show(['val', t, v]))
         out += chunk_exact_cases(g, max(24, self.n(tier) // 12))
         out += same_content_cases(g, max(6, self.n(tier) // 40))
+        # one packed sequence of more than 512 (thorough: 1024) chunks
+        e_ = g.rng.choice(['u256', 'u128'])
+        n_ = (520 if tier == 'quick' else 1030) * (32 // UINT_W[e_]) + g.rng.choice([0, 1, 3])
+        out.append(show(['val', g.rng.choice([['list', e_, n_ + 100], ['vec', e_, n_]]), ['s'] + [g.val(e_, 1) for _ in range(n_)]]))
+        # 32-byte elements / fields whose VALUE is the root of an empty subtree (a zero hash of height 1, 2, ...)
+        zh = [C18.sx_root(['Z', k_]).hex() for k_ in range(0, 6)]
+        for _ in range(3):
+            vals = ['x' + g.rng.choice(zh[1:]), 'x' + g.rng.choice(zh), 'x' + g.chunk().hex(), 'x' + zh[g.rng.choice([1, 2, 5])]]
+            out.append(show(['val', g.rng.choice([['list', ['Bv', 32], 8], ['vec', ['Bv', 32], 4]]), ['s'] + vals]))
+            out.append(show(['val', ['cont', ['Bv', 32], 'u8', ['Bv', 32]], ['s', vals[0], '1', vals[3]]]))
+            out.append(show(['val', ['list', 'u256', 8], ['s'] + [str(int.from_bytes(bytes.fromhex(q[1:]), 'little')) for q in vals]]))
+        # a union with the greatest number of options, the last one selected
+        opts_ = [g.rng.choice(['u8', 'u16', ['list', 'u8', 2]]) for _ in range(128)]
+        for no_ in (128, 127, 65):
+            u_ = ['union'] + opts_[:no_]
+            out.append(show(['val', u_, ['u', no_ - 1, g.val(u_[no_], 2)]]))
         # families of types that print alike, a (full) value of each, the tightest member first
         for fam in alike_families(g, max(3, self.n(tier) // 60)):
             key = lambda q: q[1][1] if q[1][0] != 'cont' else q[1][2][1]
@@ -1447,6 +1463,14 @@ class C12(Prop):
             wrapt = g.rng.choice([bvt, ['cont', 'u8', bvt], ['vec', bvt, 2], ['union', bvt, 'u8']])
             out.append(show(['type', wrapt]))
             out.append(show(['type', bvt]))
+        # partial construction: containers with runs of same-typed fields, random values; given fields stay, omitted ones default
+        for _ in range(max(10, self.n(tier) // 20)):
+            ft = [g.rng.choice(['u64', 'u8', ['vec', 'u64', 5], ['cont', 'u8', 'u16'], ['list', 'u8', 4], ['Bv', 4]]) for _ in range(3)]
+            fs = []
+            for _k in range(g.rng.choice([2, 3, 4, 5, 6])):
+                fs.append(fs[-1] if fs and g.rng.random() < 0.6 else g.rng.choice(ft))
+            t = ['cont'] + fs
+            out.append(show(['val', t, g.val(t, 6)]))
         # element types with EQUAL default roots but different structure (a list's empty contents are ONE summary node, a
         # container's fixed-size field is materialised chunks), used one after the other in vectors of the same length
         for d_ in (1, 2, 3):
@@ -1492,6 +1516,9 @@ class C12(Prop):
 
     def compare(self, case, py, mo, stats):
         out = []
+        if case[0] == 'val' and py.get('p.partialctor') is not None and set(py['p.partialctor']) - {'1'}:
+            out.append(F('prop', 'partial construction (even / odd / first / last fields given): a given field is not what was given or an omitted field '
+                         'is not its type\'s default', py.get('p.partialctor'), 'all 1'))
         if case[0] == 'tnav':
             bump(stats, 'kinds', 'huge-vec:' + kind(case[1][1]))
             fl = py.get('p.tnav')
@@ -2100,6 +2127,10 @@ class C18(Prop):
                 gt = (1 << (dd + 1)) - 1 if right else (1 << dd)
                 t0, t1_, t2_ = spine(['L', g.chunk().hex()]), spine(['L', g.chunk().hex()]), spine(['L', g.chunk().hex()])
                 out.append(show(['tree', t0, ['hist', gt, t1_, t1_, t2_, t0], ['hist', gt >> 1, t1_, t2_], ['hist', gt ^ 1, t1_]]))
+                dd = r.choice([64, 66, 70])
+                deep = lambda a_, b_: spine(['P', ['L', a_], ['L', b_]])
+                c1_, c2_, c3_ = g.chunk().hex(), g.chunk().hex(), g.chunk().hex()
+                out.append(show(['tree', deep(c1_, c2_), ['diff', deep(c3_, c2_)], ['diff', deep(c3_, c1_)], ['graft', deep(c1_, c3_)], ['diff', deep(c1_, c2_)]]))
             if r.random() < 0.5:
                 # same root, different shape: zero summaries against (partially) expanded zero subtrees
                 tz = g.tree(r.choice([2, 3, 4]), 0.4)
@@ -2503,6 +2534,43 @@ class StoreProp(Prop):
             # one in four histories runs LAZILY: nothing is hashed or read before the end
             out.append(show(['storel' if k % 3 == 2 or k % 10 in (5, 6) else 'store', t, v] + ops))
         out += stale_cases(g, max(10, self.n(tier) // 10))
+        # union value views of one-chunk options written so that the value's chunk EQUALS the selector's chunk (and back)
+        for _ in range(max(4, self.n(tier) // 30)):
+            u = ['union', ['bv', 16], ['vec', 'u8', 4], ['vec', 'u16', 3]]
+            sel = r.choice([0, 1, 2])
+            if sel == 0:
+                v0 = ['u', 0, 'b1' + '0' * 15]
+                ops = [['child', 0, 0], ['mut', 1, ['set', 0, '0']], ['mut', 1, ['set', 3, '1']], ['mut', 1, ['set', 3, '0']]]
+            else:
+                v0 = ['u', sel, ['s', '7'] + ['0'] * (3 if sel == 1 else 2)]
+                ops = [['child', 0, 0], ['mut', 1, ['set', 0, str(sel)]], ['mut', 1, ['set', 1, '9']], ['mut', 1, ['set', 1, '0']]]
+            t, v = r.choice([(u, v0, ), (['cont', 'u8', u], ['s', '1', v0])])
+            if t is not u:
+                ops = [['child', 0, 1]] + [[o[0], o[1] + 1] + o[2:] for o in ops]
+            out.append(show(['store', t, v] + ops))
+        # a store history whose root view's backing is served lazily by a root-keyed source (snapshots and copies included)
+        for _ in range(max(8, self.n(tier) // 12)):
+            t = nested_ty(g, r.choice([1, 2]))
+            v = g.val(t, 8)
+            out.append(show([r.choice(['storev', 'storevl', 'storevl']), t, v] + StoreGen(g, t, v).history(r.choice([6, 12]))))
+        # lazily served root views that are written BEFORE anything was read through them (snapshots taken in between;
+        # nothing is observed before the end)
+        for _ in range(max(8, self.n(tier) // 12)):
+            from gen import _apply_val
+            t = nested_ty(g, r.choice([1, 2]))
+            v = g.val(t, 8)
+            sg = StoreGen(g, t, v)
+            ops = [['snap', 0]]
+            for _k in range(r.choice([2, 4, 6])):
+                op = sg.one_op(sg.views[0])
+                if op is None or op[0] == 'sets':
+                    continue
+                sg.views[0]['v'] = _apply_val(t, sg.views[0]['v'], op)
+                ops.append(['mut', 0, op])
+                if r.random() < 0.6:
+                    ops.append(['snap', 0])
+            if len(ops) > 1:
+                out.append(show(['storevl', t, v] + ops))
         # packed sequences (also bit fields) as ROOT views: read, copy, then element writes on either side (observed after every step)
         for _ in range(max(8, self.n(tier) // 12)):
             e = r.choice(['u8', 'u16', 'u64', 'bool', 'u128'])
@@ -2545,7 +2613,7 @@ class StoreProp(Prop):
     def shrink_candidates(self, case):
         for c in Prop.shrink_candidates(self, case):
             yield c
-        if case[0] == 'storel':
+        if case[0] in ('storel', 'storevl'):
             ops = case[3:]
             for i in range(len(ops) - 1, -1, -1):
                 yield case[:3] + ops[:i] + ops[i + 1:]
@@ -2556,10 +2624,14 @@ class StoreProp(Prop):
     def compare_store(self, case, py, mo, stats, what):
         """what: 'views' (C05/C14) or 'snaps' (C06)"""
         out = []
+        if py.get('p.skip'):
+            return out          # (a root that is both a leaf and a pair cannot be served by a root-keyed source)
+        if 'p.import' in py and py['p.import'] != 'ok':
+            return [F('prop', 'a virtual tree cannot be created', py['p.import'], 'ok')]
         if py.get('p.ctor') == 'err' or mo.get('i.ctor') == 'err':
             return [F('prop', 'ctor', py.get('p.ctor'), mo.get('i.ctor'))]
         if stats is not None:
-            bump(stats, 'sizes', 'lazy' if case[0] == 'storel' else 'observed-every-step')
+            bump(stats, 'sizes', 'lazy' if case[0] == 'storel' else ('lazily-served' if case[0] == 'storev' else 'observed-every-step'))
         for i, op in enumerate(case[3:]):
             bump(stats, 'ops', op[0] + (':' + op[2][0] if op[0] in ('mut', 'bad') else ''))
             p = '%d.' % i
@@ -2567,7 +2639,7 @@ class StoreProp(Prop):
                 cls = 'prop' if op[0] == 'bad' else 'corr'
                 out.append(F(cls, 'op %d %s ok/err' % (i, show(op)), py.get(p + 'p'), mo.get(p + 'i')))
                 break
-            if case[0] == 'storel':
+            if case[0] in ('storel', 'storevl'):
                 continue
             a, b = py.get(p + what), mo.get(p + what)
             if a != b:
@@ -2575,7 +2647,7 @@ class StoreProp(Prop):
                 idx = [j for j in range(max(len(av), len(bv))) if (av[j] if j < len(av) else None) != (bv[j] if j < len(bv) else None)]
                 out.append(F('prop', '%s %s differ after op %d %s' % (what, idx, i, show(op)), a, b))
                 break
-        if case[0] == 'storel' and not out:
+        if case[0] in ('storel', 'storevl') and not out:
             a, b = py.get('end.' + what), mo.get('end.' + what)
             if a != b:
                 av, bv = (a or '').split(','), (b or '').split(',')
@@ -2821,7 +2893,7 @@ class C17(Prop):
                 hist = [['app', g.val(t[1], 4) if kind(t) == 'list' else '1']] + hist
             for o in hist:
                 if r.random() < 0.4:
-                    ops.append(r.choice([['read'], ['len'], ['bytes'], ['root'], ['elem', r.randint(0, 6)], ['elem', r.randint(0, 40)], ['vbl'], ['eqself']]))
+                    ops.append(r.choice([['read'], ['len'], ['bytes'], ['root'], ['elem', r.randint(0, 6)], ['elem', r.randint(0, 40)], ['vbl'], ['eqself'], ['eqother']]))
                 if r.random() < 0.25 and kind(t) in ('list', 'vec', 'bl', 'bv'):
                     ops.append(['slice', r.randint(0, 40), r.randint(0, 40)])
                 if r.random() < 0.15 and kind(t) in ('list', 'vec', 'bl', 'bv'):
@@ -2945,7 +3017,7 @@ class C17(Prop):
             if t[0] == 'cont' and len(t) - 1 == len(fs):
                 cand += [(1 << d) | i for i in range(len(fs))] + [2, 3, 4, 5, 6, 7]
             pos = ['pos'] + [r.choice(cand) if cand else r.randint(2, 15) for _ in range(r.choice([1, 1, 2]))]
-            out.append(show(['partial', t, v, pos, ['vbl'], ['eqself'], ['bytes'], ['root'], ['vbl']]))
+            out.append(show(['partial', t, v, pos, ['vbl'], ['eqself'], ['eqother'], ['bytes'], ['root'], ['vbl']]))
         # mutations through child views of a partial tree
         for _ in range(self.n(tier) // 5):
             t = nested_ty(g, r.choice([1, 2, 2]))
